@@ -90,6 +90,18 @@ def rule_consumer_guards(P, R, rid):
     ok = any("event['now_monotonic']" in ast.unparse(a.value) for a in ts)
     R.check(rid, ok, 'the timestamp tested is the one of the message', 'accept|on_authorization-timestamp', u.loc(),
             'on_authorization does not take the timestamp from event[now_monotonic]')
+    ci = P.unit('SupervisorProxy.check_instance')
+    body = [x for x in ci.node.body if not (isinstance(x, ast.Expr) and isinstance(x.value, ast.Constant))]
+    tdef = [a for a in own_nodes(ci.node) if isinstance(a, ast.Assign) and ast.unparse(a.targets[0]) == 'timestamp']
+    stamp = [v for d in own_nodes(ci.node) if isinstance(d, ast.Dict) for k, v in zip(d.keys, d.values)
+             if isinstance(k, ast.Constant) and k.value == 'now_monotonic']
+    ok = len(tdef) == 1 and body and body[0] is tdef[0] and ast.unparse(tdef[0].value) == 'time.monotonic()' and \
+        len(stamp) == 1 and ast.unparse(stamp[0]) == 'timestamp' and \
+        any(isinstance(c, ast.Call) and call_text(c) == 'self._transfer_network_info' and
+            [ast.unparse(a) for a in c.args] == ['timestamp'] for c in own_nodes(ci.node))
+    R.check(rid, ok, 'handshake results carry the time at which the handshake STARTED', 'accept|handshake-timestamp',
+            ci.loc(), 'check_instance does not stamp its notifications with the monotonic time taken before the first '
+            'XML-RPC: a result obtained across a new CHECKING entry passes the is_checking() guard')
     u = P.unit('Context.on_identification_event')
     fm = factmap(u)
     idc = [c for c in own_nodes(u.node) if isinstance(c, ast.Call) and call_text(c) == 'self.mapper.identify']
@@ -216,6 +228,15 @@ def run(P, R):
                               'self.status.has_active_state()' for f in fm.at(sd[0]))
     R.check(r3, ok, 'only TICKs are sent to a peer that is not active', 'push|active', pub.loc(),
             'SupervisorProxy.publish sends under %s' % [sorted(tuple(f) for f in fm.at(c)) for c in sd])
+
+    run = P.unit('SupervisorProxyThread.run')
+    loops = [l for l in run.node.body if isinstance(l, ast.While)]
+    pe = [c for c in own_nodes(run.node) if isinstance(c, ast.Call) and call_text(c) == 'self.process_event']
+    ok = len(loops) == 1 and ast.unparse(loops[0].test) == 'not self.stop_event.is_set()' and len(pe) == 1 and \
+        any(x is pe[0] for x in ast.walk(loops[0]))
+    R.check(r3, ok, 'a stopped proxy processes no further queued message', 'proxy|run-loop', run.loc(),
+            'SupervisorProxyThread.run keeps processing messages after stop() (loop test `%s`): what is queued for a peer '
+            'is still sent after it has been isolated' % (ast.unparse(loops[0].test) if loops else '?'))
 
     # ---------------------------------------------------------------- R4
     r4 = R.rule('R4', 'consumer guards', 'process state / removal / disability events are entirely under `status.state in '
